@@ -17,6 +17,8 @@ BEHAVIOURS = ["well_behaved", "exit_at:0", "exit_at:1", "exit_at:2", "ignore_ter
 EXIT_PATHS = ["normal", "exception", "outerCancel", "timeoutAround"]
 MOMENTS = ["beforeFirstMessage", "requestInFlight", "afterResponse"]
 EXTRA_SCENARIOS = [{"beh": b, "path": p, "moment": "bigWritesQueued"} for b in ("no_read", "well_behaved", "ignore_term") for p in EXIT_PATHS]
+# the timeout around the context fires while the context is still being entered (ms after the start)
+EXTRA_SCENARIOS += [{"beh": b, "path": "timeoutAround", "moment": "duringEnter:%d" % ms} for b in ("well_behaved", "slow_start", "ignore_term") for ms in (0, 2, 5, 10, 20, 35, 50, 80)]
 
 
 def proc_state(pid):
@@ -129,7 +131,39 @@ def run_scenario(sc):
         if path == "timeoutAround":
             await anyio.sleep(30)
 
+    async def main_during_enter(ms):
+        fd0 = nfds()
+        anyio.open_process = open_process
+        entered = False
+        try:
+            with anyio.move_on_after(ms / 1000.0) as scope:
+                async with stdio_client(params) as (rs, ws):
+                    entered = True
+                    evs.append({"e": "Entered", "t": time.monotonic() - t0})
+                    await anyio.sleep(30)
+            t_ret = time.monotonic()
+            if not entered:
+                evs.append({"e": "EnterCancelled", "t": t_ret - t0})
+            evs.append({"e": "ExitBegin", "path": path, "moment": "duringEnter", "t": min(t_ret - t0, ms / 1000.0)})
+            evs.append({"e": "Returned", "dt": max(0.0, t_ret - t0 - ms / 1000.0), "exc": "", "t": t_ret - t0})
+        finally:
+            anyio.open_process = real_open
+        await anyio.sleep(0.05)
+        gc.collect()
+        await anyio.sleep(0.05)
+        for pid in pids:
+            evs.append({"e": "ChildState", "s": proc_state(pid)})
+        evs.append({"e": "FdDelta", "n": nfds() - fd0})
+        evs.append({"e": "Pending", "kind": "none"})
+        for pid in pids:
+            try:
+                os.kill(pid, 9)
+            except ProcessLookupError:
+                pass
+
     async def main():
+        if moment.startswith("duringEnter"):
+            return await main_during_enter(int(moment.split(":")[1]))
         fd0 = nfds()
         anyio.open_process = open_process
         entered = False
